@@ -513,20 +513,21 @@ Theorem read_area_exact m img i bs : read_area m img i = Ok bs ->
 Proof.
   unfold read_area. destruct ((i <? 0) || (h_nareas (f_hdr m) <=? i)) eqn:E; [discriminate|].
   destruct (nth_area m i) as [a|]; [|discriminate].
-  unfold read_at. destruct (a_off a + a_size a <=? zlen img) eqn:E2; [|discriminate].
+  unfold read_at. destruct ((a_off a <? zlen img) && (a_off a + a_size a <=? zlen img)) eqn:E2; [|discriminate].
   intros [= <-]. exists a. repeat split; auto; lia.
 Qed.
 
 Theorem read_area_total m img i a : wf_map m = true ->
-  nth_area m i = Some a -> a_off a + a_size a <= zlen img ->
+  nth_area m i = Some a -> a_off a < zlen img -> a_off a + a_size a <= zlen img ->
   read_area m img i = Ok (sub (a_off a) (a_size a) img).
 Proof.
-  intros W N L. apply wf_map_spec in W as (W & H1 & H0 & H).
+  intros W N L0 L. apply wf_map_spec in W as (W & H1 & H0 & H).
   unfold read_area. unfold nth_area in *.
   destruct (0 <=? i) eqn:Ei; [|discriminate].
   assert (Hi : (Z.to_nat i < length (f_areas m))%nat) by (apply nth_error_Some; congruence).
   replace ((i <? 0) || (h_nareas (f_hdr m) <=? i)) with false by (unfold zlen in *; lia).
-  rewrite N. unfold read_at. replace (a_off a + a_size a <=? zlen img) with true by lia. reflexivity.
+  rewrite N. unfold read_at.
+  replace ((a_off a <? zlen img) && (a_off a + a_size a <=? zlen img)) with true by lia. reflexivity.
 Qed.
 
 Theorem write_area_refuses_large m img i d a :
@@ -581,12 +582,14 @@ Proof.
 Qed.
 
 Theorem checksum_covers_static_in_order m img : wf_map m = true ->
-  (forall a, In a (f_areas m) -> static a = true -> a_off a + a_size a <= zlen img) ->
+  (forall a, In a (f_areas m) -> static a = true ->
+     a_off a < zlen img /\ a_off a + a_size a <= zlen img) ->
   checksum_input m img =
     Ok (concat (map (fun a => sub (a_off a) (a_size a) img) (filter static (f_areas m)))).
 Proof.
   intros W H. unfold checksum_input. apply checksum_stream_spec.
   intros k a N S. rewrite Z.add_0_l. apply read_area_total; auto.
   - unfold nth_area. replace (0 <=? Z.of_nat k) with true by lia. rewrite Nat2Z.id. exact N.
+  - apply H; auto. eapply nth_error_In; eauto.
   - apply H; auto. eapply nth_error_In; eauto.
 Qed.
